@@ -311,8 +311,14 @@ func (e *SignatureAlgorithmExtension) WriteToConfig(c *Config) error {
 func (e *SignatureAlgorithmExtension) CheckImplemented() error {
 	for _, algs := range e.getStructuredAlgorithms() {
 		found := false
+		// The extension carries TLS code points; the table uses the internal
+		// signature constants, which differ from the wire value for ECDSA.
+		signature := algs.Signature
+		if signature == 3 { // SignatureAlgorithm ecdsa(3), RFC 5246 7.4.1.4.1
+			signature = signatureECDSA
+		}
 		for _, supported := range supportedSKXSignatureAlgorithms {
-			if algs.Hash == supported.Hash && algs.Signature == supported.Signature {
+			if algs.Hash == supported.Hash && signature == supported.Signature {
 				found = true
 				break
 			}
